@@ -1,6 +1,7 @@
 """C07 — validation verdict equals the schema's verdict (partial: jsonschema's evaluation is third-party).
 proof leg: Mappy.Props.C07 (lower-casing idempotent and blind to letter case; hidden keys ignored by the schema semantics for
-           every object schema of the folder; list = concatenation; no messages ⇔ no errors).
+           every object schema of the folder; list = concatenation; no messages ⇔ no errors; message construction total on every
+           path the schema semantics can report — C07_messages_total).
 correspondence: `errs` (Draft-4 subset semantics in Lean vs jsonschema.iter_errors: equal (path, keyword) multisets), `lowercase`,
            `messages` (create_message on the reported paths).
 oracle: Validator.validate vs an independently built Draft4Validator (own $ref inlining): zero messages iff it reports nothing;
